@@ -325,7 +325,7 @@ func scenAdmission(rep *Report, tier string, seed int64) {
 			rates[t] = uint64(1e6 + int(t)*37e5)
 			avgs[t] = uint64(1e6 + int(t)*41e5)
 		}
-		assets := []fat2.PTicker{fat2.PTickerUSD, fat2.PTickerEUR, fat2.PTickerXBT}
+		assets := []fat2.PTicker{fat2.PTickerUSD, fat2.PTickerEUR, fat2.PTickerXBT, fat2.PTickerPEG}
 		bals := map[fat2.PTicker]uint64{}
 		for _, t := range assets {
 			if r.Intn(3) != 0 {
@@ -370,6 +370,28 @@ func scenAdmission(rep *Report, tier string, seed int64) {
 				shape += "C"
 			}
 		}
+		if i%5 == 0 {
+			// directed shape: spend t, convert u into t, spend t again relying on the conversion's
+			// output (in the bank era a PEG output is only paid by the second pass)
+			t := assets[r.Intn(len(assets))]
+			u := assets[(int(r.Intn(len(assets)-1))+1+tickerIndex(assets, t))%len(assets)]
+			bals = map[fat2.PTicker]uint64{t: uint64(100 + r.Intn(100)), u: uint64(100000 + r.Intn(1000))}
+			var b1, b2 factom.FAAddress
+			r.Read(b1[:])
+			r.Read(b2[:])
+			first := bals[t] - uint64(r.Intn(3))
+			second := bals[t] - uint64(r.Intn(3))
+			txs = []fat2.Transaction{
+				Transfer(in, t, fat2.AddressAmountTuple{Address: b1, Amount: first}),
+				Conversion(in, u, bals[u], t),
+				Transfer(in, t, fat2.AddressAmountTuple{Address: b2, Amount: second}),
+			}
+			hasConv = true
+			shape = "TCT-dependent"
+			if t == fat2.PTickerPEG {
+				shape += "-peg"
+			}
+		}
 		nilRates := !hasConv
 		impl, e := d.applyDirect(h, bals, txs, rates, avgs, nilRates, nil)
 		nr := 0
@@ -378,6 +400,9 @@ func scenAdmission(rep *Report, tier string, seed int64) {
 		}
 		line := fmt.Sprintf("applybatch %d %s %d %s %s %s", h, mapLine(bals), nr, mapLine(rates), mapLine(avgs), strings.TrimPrefix(txLineForced(e, EntryTime(h).Unix(), txs), "tx "))
 		model := strings.Replace(m.Ask(line), "ok dropped", "ok apply", 1)
+		if strings.HasPrefix(model, "fail ") {
+			model = "fail " + modelClass(model)
+		}
 		total++
 		rep.Case(fmt.Sprintf("batch|%s|%s", shape, strings.Fields(impl + " x x")[1]), true)
 		if impl != model {
@@ -387,7 +412,9 @@ func scenAdmission(rep *Report, tier string, seed int64) {
 		}
 		// monitors: a rejected batch leaves the balances exactly as they were; nothing is negative
 		if strings.HasPrefix(impl, "ok reject") && !strings.Contains(impl, hx(in[:])+":"+balLine(bals)+" ") {
-			rep.Violate("batch:reject-changed-balances", fmt.Sprintf("shape=%s %q from %s", shape, impl, balLine(bals)), "")
+			path := WriteReplay(rep.Property, "admission-partial", Replay{Property: rep.Property, Scenario: "admission", Seed: seed, Setup: s,
+				What: "a rejected batch changed balances", Extra: map[string]interface{}{"line": line, "impl": impl, "height": h, "balances_before": balLine(bals)}})
+			rep.Violate("batch:reject-changed-balances", fmt.Sprintf("shape=%s %q from %s", shape, impl, balLine(bals)), path)
 		}
 		if strings.Contains(impl, "=-") {
 			rep.Violate("batch:negative", impl, "")
@@ -412,3 +439,12 @@ func txLineForced(e factom.Entry, ts int64, txs []fat2.Transaction) string {
 }
 
 func init() { scenarios["admission"] = scenAdmission }
+
+func tickerIndex(l []fat2.PTicker, t fat2.PTicker) int {
+	for i, x := range l {
+		if x == t {
+			return i
+		}
+	}
+	return 0
+}
